@@ -22,6 +22,17 @@ translator lib/leaftrans.py accepts, without looking at the shape of the text:
   * a function returning a pointer is projected to an integer: NULL -> 0, a payload pointer
     (header + 1) -> line + 1
 
+  * pointers into the ring are tracked symbolically as (line, byte offset from the ring base): typed
+    arithmetic (rb + 1, block pointer + pos, hdr + 1) and byte arithmetic on char * / uint8_t * /
+    void * ((char *)rb + sizeof(ring) + (size_t)pos * 64 + sizeof(*hdr)), in locals, through helper
+    parameters and through pure pointer-valued helpers with local declarations; a pointer is a
+    header pointer when its byte offset is sizeof(ring), a payload pointer when it is
+    sizeof(ring) + sizeof(header)
+  * integer locals assigned a literal are followed as constants along each path, conditions that
+    are then statically decided keep only the live branch
+  * `for` / `while` loops are unrolled (at most 3 iterations, break / continue supported); the loop
+    must provably exit: if a 4th iteration is reachable the function is rejected
+
 Anything else raises LeafError (reported as a broken obligation, never silently skipped)."""
 import copy
 import re
@@ -32,6 +43,8 @@ HDRT = "muggle_shm_ringbuf_data_hdr_t"
 BLOCKT = "muggle_shm_ringbuf_block_t"
 CACHED = {"cached_w_hdr": "w_hdr_line", "cached_r_hdr": "r_hdr_line"}
 HFIELD = {"n_bytes": "hN", "n_cachelines": "hC"}
+BYTE_T = ("char", "unsigned char", "signed char", "uint8_t", "int8_t", "void")
+UNROLL = 3
 
 
 def qt(n):
@@ -74,6 +87,20 @@ class Slicer:
         self.uid = 0
         self.ring = None
         self.depth = 0
+        self.loops = []
+
+    # sizes as printed by the params program of this run
+    def size_of(self, ty):
+        ty = ty.replace("struct ", "").strip()
+        if ty in self.sizeofs:
+            return self.sizeofs[ty]
+        raise L.LeafError("size of %s is not known" % ty)
+
+    def ring_size(self):
+        return self.size_of(RING)
+
+    def hdr_size(self):
+        return self.size_of(HDRT)
 
     # ---- helpers -------------------------------------------------------
     def fn(self, name):
@@ -126,7 +153,7 @@ class Slicer:
         if n.get("kind") != "CallExpr":
             return False
         f = self.fn(self.callee(n))
-        return f is not None and self.single_return(f) is None
+        return f is not None and self.single_return(f) is None and not self.is_ptr_helper(n)
 
     def find_hoist(self, n):
         if self.local_call(n):
@@ -145,6 +172,219 @@ class Slicer:
             root["inner"] = [self.replace_node(c, old, new) for c in root["inner"]]
         return root
 
+    # ---- path-sensitive constants -------------------------------------------
+    def static_int(self, n, sub):
+        """value of an integer expression when it is decided by literals and constant locals, else None"""
+        k = n.get("kind")
+        if k in ("ParenExpr", "ConstantExpr"):
+            return self.static_int(n["inner"][0], sub)
+        if k in ("ImplicitCastExpr", "CStyleCastExpr"):
+            v = self.static_int(n["inner"][-1], sub)
+            if v is None:
+                return None
+            if n.get("castKind") == "IntegralToBoolean":
+                return 1 if v != 0 else 0
+            if n.get("castKind") in ("LValueToRValue", "NoOp", "IntegralCast"):
+                return v
+            return None
+        if k == "IntegerLiteral":
+            return int(n["value"])
+        if k == "DeclRefExpr":
+            v = sub.get(n["referencedDecl"]["name"])
+            if v and v[0] == "var":
+                return v[3]
+            return None
+        if k == "UnaryOperator" and n.get("opcode") == "!":
+            v = self.static_int(n["inner"][0], sub)
+            return None if v is None else (0 if v else 1)
+        if k == "BinaryOperator" and n.get("opcode") in ("||", "&&"):
+            a = self.static_int(n["inner"][0], sub)
+            b = self.static_int(n["inner"][1], sub)
+            if n["opcode"] == "||":
+                if (a is not None and a != 0) or (b is not None and b != 0 and a is not None):
+                    return 1
+                if a == 0:
+                    return None if b is None else (1 if b else 0)
+                return None
+            if a == 0:
+                return 0
+            if a is not None and a != 0:
+                return None if b is None else (1 if b else 0)
+            return None
+        return None
+
+    # ---- symbolic pointers: (line expression | None, byte offset from the ring base) ----
+    def pointee(self, n):
+        q = qt(n).replace("const ", "").strip()
+        if not q.endswith("*"):
+            raise L.LeafError("pointer arithmetic on a non-pointer")
+        return q[:-1].strip()
+
+    def scale_of(self, n):
+        pt = self.pointee(n)
+        if pt in BYTE_T:
+            return 1
+        return self.size_of(pt)
+
+    def add_lines(self, a, b):
+        if a is None:
+            return b
+        if b is None:
+            return a
+        return {"kind": "BinaryOperator", "opcode": "+", "type": {"qualType": "unsigned long"}, "inner": [a, b]}
+
+    def as_bytes(self, n, sub, rewritten=False):
+        """integer expression (byte count) -> (line expression | None, constant) when it is 64 * line + constant"""
+        k = n.get("kind")
+        if k in ("ParenExpr", "ConstantExpr"):
+            return self.as_bytes(n["inner"][0], sub, rewritten)
+        if k in ("ImplicitCastExpr", "CStyleCastExpr") and n.get("castKind") in ("LValueToRValue", "NoOp", "IntegralCast"):
+            inner = n["inner"][-1]
+            if n.get("castKind") == "IntegralCast":
+                ty, src = L.ctype(n), L.ctype(inner)
+                if ty is None or src is None or ty[1] < src[1]:
+                    raise L.LeafError("narrowing cast inside a byte offset")
+            return self.as_bytes(inner, sub, rewritten)
+        if k == "IntegerLiteral":
+            return (None, int(n["value"]))
+        if k == "UnaryExprOrTypeTraitExpr":
+            return (None, self.sizeof_node(n))
+        if k == "DeclRefExpr" and not rewritten:
+            v = sub.get(n["referencedDecl"]["name"])
+            if v and v[0] == "var":
+                if v[3] is not None:
+                    return (None, v[3])
+                if v[4] is not None:
+                    return self.as_bytes(v[4][0], v[4][1])
+            if v and v[0] == "expr":
+                return self.as_bytes(v[1], sub, True)
+        if k == "BinaryOperator" and n.get("opcode") in ("*", "<<"):
+            ty = L.ctype(n)
+            if ty is None or ty[1] < 64:
+                raise L.LeafError("byte offset computed in less than 64 bits")
+            a, b = n["inner"]
+            for x, y in ((a, b), (b, a)):
+                try:
+                    cy = self.as_bytes(y, sub, rewritten)
+                except L.LeafError:
+                    continue
+                want = self.size_of(BLOCKT) if n["opcode"] == "*" else 6
+                if cy == (None, want) and (n["opcode"] == "*" or y is b):
+                    return (x if rewritten else self.rx(x, sub), 0)
+            raise L.LeafError("byte offset is not a multiple of the cache line size")
+        if k == "BinaryOperator" and n.get("opcode") == "+":
+            (l1, c1), (l2, c2) = self.as_bytes(n["inner"][0], sub, rewritten), self.as_bytes(n["inner"][1], sub, rewritten)
+            return (self.add_lines(l1, l2), c1 + c2)
+        raise L.LeafError("byte offset is not of the form 64 * line + constant")
+
+    def sizeof_node(self, n):
+        if n.get("name") != "sizeof":
+            raise L.LeafError("unsupported " + str(n.get("name")))
+        if "argType" in n:
+            return self.size_of(n["argType"]["qualType"])
+        return self.size_of(qt(n["inner"][0]))
+
+    def ptr_of(self, n, sub):
+        """pointer-valued expression -> (line expression | None, byte offset from the ring base)"""
+        while n.get("kind") == "ParenExpr" or (n.get("kind") in ("ImplicitCastExpr", "CStyleCastExpr") and
+                                               n.get("castKind") in ("NoOp", "LValueToRValue", "BitCast")):
+            n = n["inner"][-1]
+        k = n.get("kind")
+        if k == "DeclRefExpr":
+            v = sub.get(n["referencedDecl"]["name"])
+            if v and v[0] == "ptr":
+                return (var(v[1]) if v[1] is not None else None, v[2])
+            if v and v[0] == "sp":
+                return (copy.deepcopy(v[1]), v[2])
+            if v and v[0] == "ring":
+                return (None, 0)
+            raise L.LeafError("pointer variable %s does not point into the ring" % n["referencedDecl"]["name"])
+        if k == "MemberExpr" and n.get("name") in CACHED and self.is_ring(self.member_base(n), sub):
+            return (self.field(CACHED[n["name"]]), self.ring_size())
+        if k == "BinaryOperator" and n.get("opcode") == "+":
+            a, b = n["inner"]
+            if not qt(a).strip().endswith("*"):
+                a, b = b, a
+            line, off = self.ptr_of(a, sub)
+            sc = self.scale_of(a)
+            if sc == 1:
+                l2, c2 = self.as_bytes(b, sub)
+                return (self.add_lines(line, l2), off + c2)
+            if sc == self.size_of(BLOCKT):
+                return (self.add_lines(line, self.rx(b, sub)), off)
+            c = self.static_int(b, sub)
+            if c is None:
+                raise L.LeafError("non-constant index on a pointer to " + self.pointee(a))
+            return (line, off + c * sc)
+        if k == "CallExpr":
+            return self.ptr_call(n, sub)
+        raise L.LeafError("pointer expression %s cannot be followed into the ring" % k)
+
+    def ptr_call(self, call, sub):
+        """a pure pointer-valued helper: local declarations and one return"""
+        f = self.fn(self.callee(call))
+        if f is None:
+            raise L.LeafError("pointer-valued call of %s: no definition in this file" % self.callee(call))
+        self.depth += 1
+        if self.depth > 12:
+            raise L.LeafError("call nesting too deep")
+        try:
+            parms = [c for c in f.get("inner", []) if c.get("kind") == "ParmVarDecl"]
+            args = call["inner"][1:]
+            if len(parms) != len(args):
+                raise L.LeafError("argument count mismatch calling " + f["name"])
+            subh = {}
+            for p_, a in zip(parms, args):
+                if L.ctype(p_) is not None:
+                    subh[p_["name"]] = ("expr", self.rx(a, sub))
+                elif qt(p_).strip().endswith("*"):
+                    line, off = self.ptr_of(a, sub)
+                    subh[p_["name"]] = ("ring",) if (line is None and off == 0 and RING in qt(p_)) else ("sp", line, off)
+                else:
+                    raise L.LeafError("unsupported parameter of pointer helper " + f["name"])
+            stmts = list(self.body_of(f).get("inner", []))
+            while stmts:
+                s = stmts.pop(0)
+                k = s.get("kind")
+                if k == "NullStmt":
+                    continue
+                if k == "CompoundStmt":
+                    stmts = list(s.get("inner", [])) + stmts
+                    continue
+                if k == "ReturnStmt" and s.get("inner"):
+                    return self.ptr_of(s["inner"][0], subh)
+                if k == "DeclStmt":
+                    for d in s.get("inner", []):
+                        init = d.get("inner", [])
+                        if d.get("kind") != "VarDecl" or not init:
+                            raise L.LeafError("unsupported declaration in pointer helper " + f["name"])
+                        if L.ctype(d) is not None:
+                            subh[d["name"]] = ("var", None, qt(d), self.static_int(init[-1], subh), (init[-1], dict(subh)))
+                        elif qt(d).strip().endswith("*"):
+                            line, off = self.ptr_of(init[-1], subh)
+                            subh[d["name"]] = ("sp", line, off)
+                        else:
+                            raise L.LeafError("unsupported local in pointer helper " + f["name"])
+                    continue
+                raise L.LeafError("pointer helper %s is not pure (statement %s)" % (f["name"], k))
+            raise L.LeafError("pointer helper %s does not return" % f["name"])
+        finally:
+            self.depth -= 1
+
+    def hdr_line(self, n, sub):
+        line, off = self.ptr_of(n, sub)
+        if off != self.ring_size():
+            raise L.LeafError("pointer used as a message header is at byte offset %d of its line" % (off - self.ring_size()))
+        return line if line is not None else lit(0, "unsigned int")
+
+    def bind_ptr(self, n, sub):
+        """materialise the line of a pointer value at the point where it is computed"""
+        line, off = self.ptr_of(n, sub)
+        if line is None:
+            return [], ("ptr", None, off)
+        nm = self.fresh("line")
+        return [decl(nm, "uint32_t", line)], ("ptr", nm, off)
+
     def bind_args(self, f, call, sub):
         """-> (pre statements, substitution for the callee)"""
         parms = [c for c in f.get("inner", []) if c.get("kind") == "ParmVarDecl"]
@@ -157,70 +397,21 @@ class Slicer:
             if L.ctype(p) is not None:
                 nm = self.fresh(p["name"])
                 pre.append(decl(nm, t, self.rx(a, sub)))
-                subh[p["name"]] = ("var", nm, t)
+                subh[p["name"]] = ("var", nm, t, self.static_int(a, sub), None)
             elif RING in t:
                 if not self.is_ring(a, sub):
                     raise L.LeafError("ring pointer argument is not the ring")
                 subh[p["name"]] = ("ring",)
-            elif HDRT in t or t.replace(" ", "") == "void*":
-                nm = self.fresh("line")
-                pre.append(decl(nm, "uint32_t", self.line_of(a, sub)))
-                subh[p["name"]] = ("hdr", nm)
-            elif t.endswith("*") and L.ctype({"type": {"qualType": t[:-1].strip()}}) is not None:
-                a0 = strip_all(a)
-                if a0.get("kind") == "DeclRefExpr" and sub.get(a0["referencedDecl"]["name"], (None,))[0] == "outp":
-                    subh[p["name"]] = sub[a0["referencedDecl"]["name"]]
-                else:
-                    raise L.LeafError("unsupported out-parameter argument")
+            elif t.strip().endswith("*") and L.ctype({"type": {"qualType": t.strip()[:-1].strip()}}) is not None and \
+                    strip_all(a).get("kind") == "DeclRefExpr" and sub.get(strip_all(a)["referencedDecl"]["name"], (None,))[0] == "outp":
+                subh[p["name"]] = sub[strip_all(a)["referencedDecl"]["name"]]
+            elif t.strip().endswith("*"):
+                d, v = self.bind_ptr(a, sub)
+                pre += d
+                subh[p["name"]] = v
             else:
                 raise L.LeafError("unsupported parameter type %s in %s" % (t, f["name"]))
         return pre, subh
-
-    # ---- pointer to a header -> line expression ---------------------------
-    def is_data_base(self, n, sub):
-        """(muggle_shm_ringbuf_block_t *)(rb + 1)"""
-        if BLOCKT not in qt(n):
-            return False
-        n = strip_all(n)
-        if n.get("kind") == "BinaryOperator" and n.get("opcode") == "+":
-            a, b = n["inner"]
-            return self.is_ring(a, sub) and strip_all(b).get("kind") == "IntegerLiteral" and strip_all(b)["value"] == "1"
-        return False
-
-    def line_of(self, n, sub):
-        n0 = strip_all(n)
-        k = n0.get("kind")
-        if k == "DeclRefExpr":
-            v = sub.get(n0["referencedDecl"]["name"])
-            if v and v[0] == "hdr" and v[1] is not None:
-                return var(v[1])
-            raise L.LeafError("pointer variable %s does not point to a header" % n0["referencedDecl"]["name"])
-        if k == "MemberExpr" and n0.get("name") in CACHED and self.is_ring(self.member_base(n0), sub):
-            return self.field(CACHED[n0["name"]])
-        if k == "BinaryOperator" and n0.get("opcode") == "+":
-            a, b = n0["inner"]
-            if self.is_data_base(a, sub):
-                return self.rx(b, sub)
-            if self.is_data_base(b, sub):
-                return self.rx(a, sub)
-        if k == "CallExpr":
-            f = self.fn(self.callee(n0))
-            e = self.single_return(f) if f is not None else None
-            if e is None:
-                raise L.LeafError("pointer-valued call of %s cannot be followed" % self.callee(n0))
-            parms = [c for c in f.get("inner", []) if c.get("kind") == "ParmVarDecl"]
-            subh = {}
-            for p, a in zip(parms, n0["inner"][1:]):
-                if RING in qt(p):
-                    if not self.is_ring(a, sub):
-                        raise L.LeafError("ring pointer argument is not the ring")
-                    subh[p["name"]] = ("ring",)
-                elif L.ctype(p) is not None:
-                    subh[p["name"]] = ("expr", self.rx(a, sub))
-                else:
-                    raise L.LeafError("unsupported parameter of pointer helper")
-            return self.line_of(e, subh)
-        raise L.LeafError("header pointer expression %s cannot be followed to a line" % k)
 
     def member_base(self, n):
         b = n["inner"][0]
@@ -245,8 +436,8 @@ class Slicer:
                 if n["name"] in CACHED:
                     raise L.LeafError("header pointer field used as an integer")
                 return self.field(n["name"], qt(n))
-            if n["name"] in HFIELD:
-                return self.elem(HFIELD[n["name"]], self.line_of(b, sub))
+            if n["name"] in HFIELD and HDRT in qt(b):
+                return self.elem(HFIELD[n["name"]], self.hdr_line(b, sub))
             raise L.LeafError("unsupported member access ." + n.get("name", "?"))
         if k == "DeclRefExpr":
             nm = n["referencedDecl"]["name"]
@@ -254,22 +445,16 @@ class Slicer:
             if v is None:
                 return copy.deepcopy(n)
             if v[0] == "var":
+                if v[1] is None:
+                    raise L.LeafError("local of a pointer helper used as a value")
                 return lvar(v[1], v[2])
             if v[0] == "expr":
                 return copy.deepcopy(v[1])
             if v[0] == "ring":
                 return self.ring_ref()["inner"][0]
             raise L.LeafError("pointer variable %s used as an integer" % nm)
-        if k in ("ImplicitCastExpr", "CStyleCastExpr") and n.get("castKind") == "PointerToBoolean":
-            p = strip_all(n["inner"][-1])
-            if p.get("kind") == "DeclRefExpr" and sub.get(p["referencedDecl"]["name"], (None,))[0] == "outp":
-                return lit(1)
-            raise L.LeafError("pointer tested as a condition")
         if k == "UnaryExprOrTypeTraitExpr":
-            ty = n.get("argType", {}).get("qualType", "")
-            if n.get("name") == "sizeof" and ty in self.sizeofs:
-                return lit(self.sizeofs[ty], "unsigned long")
-            raise L.LeafError("unsupported sizeof/alignof of " + ty)
+            return lit(self.sizeof_node(n), "unsigned long")
         if k == "CallExpr":
             f = self.fn(self.callee(n))
             e = self.single_return(f) if f is not None else None
@@ -282,9 +467,9 @@ class Slicer:
                     subh[p["name"]] = ("ring",)
                 elif L.ctype(p) is not None:
                     subh[p["name"]] = ("expr", self.rx(a, sub))
-                elif HDRT in qt(p):
-                    nm = None
-                    subh[p["name"]] = ("hdrx", self.line_of(a, sub))
+                elif qt(p).strip().endswith("*"):
+                    line, off = self.ptr_of(a, sub)
+                    subh[p["name"]] = ("sp", line, off)
                 else:
                     raise L.LeafError("unsupported parameter of helper " + f["name"])
             return self.rx(e, subh)
@@ -294,6 +479,14 @@ class Slicer:
         return out
 
     # ---- statements (continuation-passing) ----------------------------------
+    def with_loops(self, stack, thunk):
+        saved = self.loops
+        self.loops = stack
+        try:
+            return thunk()
+        finally:
+            self.loops = saved
+
     def inline(self, call, sub, on_return):
         """inline a call of a file-local function; on_return(raw return expr | None, callee substitution) -> stmts"""
         f = self.fn(self.callee(call))
@@ -304,7 +497,12 @@ class Slicer:
             raise L.LeafError("call nesting too deep")
         try:
             pre, subh = self.bind_args(f, call, sub)
-            return pre + self.seq([self.body_of(f)], subh, lambda: on_return(None, subh), on_return)
+            outer = self.loops
+            body = self.with_loops([], lambda: self.seq(
+                [self.body_of(f)], subh,
+                lambda s: self.with_loops(outer, lambda: on_return(None, s)),
+                lambda e, s: self.with_loops(outer, lambda: on_return(e, s))))
+            return pre + body
         finally:
             self.depth -= 1
 
@@ -323,23 +521,64 @@ class Slicer:
             if L.ctype({"type": {"qualType": ty}}) is None:
                 raise L.LeafError("helper %s returns %s inside an expression" % (f["name"], rt))
             pre = [decl(tmp, ty, self.rx(e, subh))]
-            sub2[tmp] = ("var", tmp, ty)
+            sub2[tmp] = ("var", tmp, ty, self.static_int(e, subh), None)
             new = self.replace_node(stmt, call, lvar(tmp, ty))
             return pre + self.seq([new] + R, sub2, cont, retk)
         return self.inline(call, sub, on_return)
 
+    def loop(self, init, cond, inc, body, R, sub, cont, retk):
+        if init is not None:
+            return self.seq([init, {"kind": "@loop", "cond": cond, "inc": inc, "body": body}] + R, sub, cont, retk)
+        outer = list(self.loops)
+
+        def after(s):
+            return self.with_loops(outer, lambda: self.seq(R, s, cont, retk))
+
+        def unroll(k, s):
+            if k == 0:
+                raise L.LeafError("loop does not provably exit within %d iterations" % UNROLL)
+            cv = 1 if cond is None else self.static_int(cond, s)
+
+            def nxt(s1):
+                return self.with_loops(outer, lambda: self.seq([inc] if inc is not None else [], s1,
+                                                               lambda s2: unroll(k - 1, s2), retk))
+
+            def run(s0):
+                return self.with_loops(outer + [(after, nxt)], lambda: self.seq([body], s0, nxt, retk))
+            if cv is not None:
+                return run(s) if cv else after(s)
+            return [{"kind": "IfStmt", "inner": [self.rx(cond, s), {"kind": "CompoundStmt", "inner": run(dict(s))},
+                                                 {"kind": "CompoundStmt", "inner": after(dict(s))}]}]
+        return unroll(UNROLL, sub)
+
     def seq(self, stmts, sub, cont, retk):
         if not stmts:
-            return cont()
+            return cont(sub)
         s, R = stmts[0], list(stmts[1:])
         k = s.get("kind")
         if k == "CompoundStmt":
             return self.seq(list(s.get("inner", [])) + R, sub, cont, retk)
         if k == "NullStmt":
             return self.seq(R, sub, cont, retk)
+        if k == "@loop":
+            return self.loop(None, s["cond"], s["inc"], s["body"], R, sub, cont, retk)
+        if k == "ForStmt":
+            init, _cv, cond, inc, body = [(c if c else None) for c in s["inner"]]
+            return self.loop(init, cond, inc, body, R, sub, cont, retk)
+        if k == "WhileStmt":
+            cond, body = s["inner"][-2], s["inner"][-1]
+            return self.loop(None, cond, None, body, R, sub, cont, retk)
+        if k == "BreakStmt":
+            if not self.loops:
+                raise L.LeafError("break outside a loop")
+            return self.loops[-1][0](sub)
+        if k == "ContinueStmt":
+            if not self.loops:
+                raise L.LeafError("continue outside a loop")
+            return self.loops[-1][1](sub)
         if k == "ReturnStmt":
             e = s["inner"][0] if s.get("inner") else None
-            if e is not None and self.local_call(strip_all(e)):
+            if e is not None and self.local_call(strip_all(e)) and not self.is_ptr_helper(strip_all(e)):
                 # tail call: the callee's returns are the caller's returns
                 return self.inline(strip_all(e), sub, lambda e2, subh: retk(e2, subh))
             if e is not None and self.find_hoist(e) is not None:
@@ -355,6 +594,9 @@ class Slicer:
                 return self.hoisted(s, R, sub, cont, retk)
             t = s["inner"][1]
             f = s["inner"][2] if len(s["inner"]) > 2 else None
+            cv = self.static_int(c, sub)
+            if cv is not None:
+                return self.seq(([t] if cv else ([f] if f is not None else [])) + R, sub, cont, retk)
             th = self.seq([t] + R, dict(sub), cont, retk)
             el = self.seq(([f] if f is not None else []) + R, dict(sub), cont, retk)
             return [{"kind": "IfStmt", "inner": [self.rx(c, sub), {"kind": "CompoundStmt", "inner": th},
@@ -371,14 +613,15 @@ class Slicer:
                 if L.ctype(d) is not None:
                     nm = self.fresh(d["name"])
                     out.append(decl(nm, t, self.rx(init[-1], sub) if init else lit(0)))
-                    sub[d["name"]] = ("var", nm, t)
-                elif HDRT in t:
+                    sub[d["name"]] = ("var", nm, t, self.static_int(init[-1], sub) if init else None,
+                                      (init[-1], dict(sub)) if init else None)
+                elif t.strip().endswith("*"):
                     if init:
-                        nm = self.fresh("line")
-                        out.append(decl(nm, "uint32_t", self.line_of(init[-1], sub)))
-                        sub[d["name"]] = ("hdr", nm)
+                        pre, v = self.bind_ptr(init[-1], sub)
+                        out += pre
+                        sub[d["name"]] = v
                     else:
-                        sub[d["name"]] = ("hdr", None)
+                        sub[d["name"]] = ("ptr?",)
                 else:
                     raise L.LeafError("unsupported local of type " + t)
             return out + self.seq(R, sub, cont, retk)
@@ -400,14 +643,13 @@ class Slicer:
             if l0.get("kind") == "MemberExpr" and l0.get("name") in CACHED and self.is_ring(self.member_base(l0), sub):
                 if s["opcode"] != "=":
                     raise L.LeafError("arithmetic on a cached header pointer")
-                return [assign(self.field(CACHED[l0["name"]]), self.line_of(rhs, sub))] + self.seq(R, sub, cont, retk)
-            if l0.get("kind") == "DeclRefExpr" and sub.get(l0["referencedDecl"]["name"], (None,))[0] == "hdr":
+                return [assign(self.field(CACHED[l0["name"]]), self.hdr_line(rhs, sub))] + self.seq(R, sub, cont, retk)
+            if l0.get("kind") == "DeclRefExpr" and sub.get(l0["referencedDecl"]["name"], (None,))[0] in ("ptr", "ptr?"):
                 if s["opcode"] != "=":
-                    raise L.LeafError("arithmetic on a header pointer")
-                nm = self.fresh("line")
-                out = [decl(nm, "uint32_t", self.line_of(rhs, sub))]
-                sub[l0["referencedDecl"]["name"]] = ("hdr", nm)
-                return out + self.seq(R, sub, cont, retk)
+                    raise L.LeafError("compound assignment to a pointer local")
+                pre, v = self.bind_ptr(rhs, sub)
+                sub[l0["referencedDecl"]["name"]] = v
+                return pre + self.seq(R, sub, cont, retk)
             if l0.get("kind") == "UnaryOperator" and l0.get("opcode") == "*":
                 p = strip_all(l0["inner"][0])
                 if p.get("kind") == "DeclRefExpr" and sub.get(p["referencedDecl"]["name"], (None,))[0] == "outp":
@@ -415,9 +657,18 @@ class Slicer:
                         raise L.LeafError("compound assignment through an out-parameter")
                     return [assign(self.field(sub[p["referencedDecl"]["name"]][1]), self.rx(rhs, sub))] + \
                         self.seq(R, sub, cont, retk)
-            return [self.rx(s, sub)] + self.seq(R, sub, cont, retk)
+            out = [self.rx(s, sub)]
+            if l0.get("kind") == "DeclRefExpr" and sub.get(l0["referencedDecl"]["name"], (None,))[0] == "var":
+                v = sub[l0["referencedDecl"]["name"]]
+                sub[l0["referencedDecl"]["name"]] = (v[0], v[1], v[2], self.static_int(rhs, sub) if s["opcode"] == "=" else None, None)
+            return out + self.seq(R, sub, cont, retk)
         if k == "UnaryOperator" and s.get("opcode") in ("++", "--"):
-            return [self.rx(s, sub)] + self.seq(R, sub, cont, retk)
+            out = [self.rx(s, sub)]
+            l0 = strip_all(s["inner"][0])
+            if l0.get("kind") == "DeclRefExpr" and sub.get(l0["referencedDecl"]["name"], (None,))[0] == "var":
+                v = sub[l0["referencedDecl"]["name"]]
+                sub[l0["referencedDecl"]["name"]] = (v[0], v[1], v[2], None, None)
+            return out + self.seq(R, sub, cont, retk)
         if k == "CallExpr":
             f = self.fn(self.callee(s))
             if f is None:
@@ -427,12 +678,23 @@ class Slicer:
             return self.seq([s["inner"][-1]] + R, sub, cont, retk)
         raise L.LeafError("unsupported statement kind " + str(k))
 
+    def is_ptr_helper(self, call):
+        """a pointer-valued helper whose value can be computed symbolically (no effects)"""
+        f = self.fn(self.callee(call))
+        if f is None or not f["type"]["qualType"].split("(")[0].strip().endswith("*"):
+            return False
+        for st in self.body_of(f).get("inner", []):
+            if st.get("kind") not in ("DeclStmt", "ReturnStmt", "NullStmt"):
+                return False
+        return True
+
     # ---- entry -----------------------------------------------------------
     def slice(self, name):
         f = self.fn(name)
         if f is None:
             raise L.LeafError("function %s not found in %s" % (name, self.src))
         self.uid = 0
+        self.loops = []
         sub, parms = {}, []
         for p in [c for c in f.get("inner", []) if c.get("kind") == "ParmVarDecl"]:
             t = qt(p)
@@ -442,7 +704,7 @@ class Slicer:
                 parms.append(p)
             elif L.ctype(p) is not None:
                 parms.append(p)
-            elif t.endswith("*") and L.ctype({"type": {"qualType": t[:-1].strip()}}) is not None:
+            elif t.strip().endswith("*") and L.ctype({"type": {"qualType": t.strip()[:-1].strip()}}) is not None:
                 sub[p["name"]] = ("outp", "out_" + p["name"])
             else:
                 raise L.LeafError("unsupported parameter type " + t)
@@ -458,24 +720,25 @@ class Slicer:
             newrt = "long"
 
             def retk(e, s):
-                e0 = strip_all(e)
-                while e0.get("kind") in ("ImplicitCastExpr", "CStyleCastExpr") and e0.get("castKind") in ("NullToPointer", "BitCast", "NoOp"):
-                    e0 = strip_all(e0["inner"][-1])
+                e0 = e
+                while e0.get("kind") == "ParenExpr" or (e0.get("kind") in ("ImplicitCastExpr", "CStyleCastExpr") and
+                                                        e0.get("castKind") in ("NullToPointer", "BitCast", "NoOp", "LValueToRValue")):
+                    e0 = e0["inner"][-1]
                 if e0.get("kind") == "IntegerLiteral" and e0["value"] == "0" or e0.get("kind") == "GNUNullExpr":
                     v = lit(0, "long")
-                elif e0.get("kind") == "BinaryOperator" and e0.get("opcode") == "+" and \
-                        strip_all(e0["inner"][1]).get("kind") == "IntegerLiteral" and strip_all(e0["inner"][1])["value"] == "1":
-                    v = {"kind": "BinaryOperator", "opcode": "+", "type": {"qualType": "long"},
-                         "inner": [self.line_of(e0["inner"][0], s), lit(1, "long")]}
                 else:
-                    raise L.LeafError("returned pointer is neither NULL nor a payload pointer (header + 1)")
+                    line, off = self.ptr_of(e, s)
+                    if off != self.ring_size() + self.hdr_size():
+                        raise L.LeafError("returned pointer is neither NULL nor a payload pointer (header + sizeof header)")
+                    v = {"kind": "BinaryOperator", "opcode": "+", "type": {"qualType": "long"},
+                         "inner": [line if line is not None else lit(0, "long"), lit(1, "long")]}
                 return [{"kind": "ReturnStmt", "inner": [v]}]
         else:
             newrt = rt
 
             def retk(e, s):
                 return [{"kind": "ReturnStmt", "inner": [self.rx(e, s)] if e is not None else []}]
-        body = self.seq([self.body_of(f)], sub, lambda: [], retk)
+        body = self.seq([self.body_of(f)], sub, lambda s: [], retk)
         return {"kind": "FunctionDecl", "name": name, "type": {"qualType": newrt + " (sliced)"},
                 "inner": parms + [{"kind": "CompoundStmt", "inner": body}]}
 
